@@ -11,7 +11,6 @@ NOT_APPLICABLE = {
     'C01': 'bounded-liveness over whole histories of Layout::tick/do_action + Kanata; contracts state single calls and neither installed verifier takes those functions (DESIGN 2, 4)',
     'C07': 'relational (two executions) over every prefix, gap and continuation; sufficiency of the 20-way idle conjunction is exactly that relation',
     'C12': 'acceptance loop is parser code over patricia_tree, run-time logic is Kanata state; a lemma about prefix-freedom would be a proof about a model',
-    'C13': 'one FxHashMap::get makes update_keys intractable for CBMC even with a concrete key; the filter closure mutates a captured counter (Verus rejects)',
     'C16': 'a relation between two configurations through the whole 4000-line parser',
     'C20': 'net-text invariant over a history of zch_press_key calls sharing eight counters behind a global mutex',
 }
